@@ -4,7 +4,7 @@
 //
 // Oracle 1 (exact rational certificate, no approximation): with 1-f = c/d and sigma = p/q reduced,
 //   T is the floor  <=>  c^p 2^(kq) <= (2^k - T)^q d^p   and   c^p 2^(kq) > (2^k - T - 1)^q d^p
-// evaluated with math/big integers. Used whenever q <= 64.
+// evaluated with math/big integers. Used whenever q <= 2048.
 // Oracle 2 (rigorous interval, integers only, directed rounding): for stakes whose reduced denominator
 // is huge, (1-f)^sigma is enclosed by writing 1-f = y 2^-e (y in [1/2,1)), bracketing sigma between two
 // dyadic rationals j/2^m and multiplying the square-root chain y^(1/2^i) in fixed point with floor /
